@@ -45,6 +45,10 @@ CHECKS = {
           "Each case is parsed (and evaluated when it parses) in a worker process that announces the case index in a memory-mapped file before running it under catch_unwind; a worker that panics, dies by a signal or abort, or makes no progress within the stall limit is attributed to that case and restarted behind it. The verdict is: no case of the enumerated space crashes or hangs, in either profile.",
           "Values are not judged. Multi-edit corruptions and token strings beyond the length bound are outside the bound; the stall limit is 8 s (quick) / 30 s (thorough); worker address space is limited to 4 GiB.",
           "DESIGN.md §4 C05"),
+  "C11": ("bounded exhaustive enumeration of item definition trees, each generated as a DMN model: the 8 built-in typeRefs, the 8 simple types with and without allowed values, and every wrapper (reference with and without own allowed values, collection of simple, collection of referenced, component and collection of component with the varied component inline or by reference) applied up to depth 3 (quick: depth 3 over number / date / dateTime; thorough: all eight bases and depth 4 over three); input side: an input data typed by the tree echoed by an untyped decision, fed every value of a set placing every atom of every kind (inside and outside the allowed values), null, a list and a context at every position, plus missing / additional / reordered entries, empty list, bare item, list of list; output side: decisions, knowledge models and decision services whose output variable is typed by the tree return each such value, its singleton wrapping and (for collections) its bare item",
+          "The expected result comes from a reference written directly on the tree (norm: what reaches the logic; conforms / coerce: output coercion incl. singleton wrapping and unwrapping); results are compared as rendered values with nested nulls normalised.",
+          "Trusts the reference in engines/c11.rs. Null items of a collection and contexts with missing or additional entries on the input side, and allowed values on output types, are left open (executed, counted, not compared). Trees beyond depth 3/4, components other than (varied, number) pairs, and item definitions with function types are outside the bound.",
+          "DESIGN.md §4 C11"),
   "C14": ("exhaustive enumeration of literal lattices (every day incl. impossible days of 16-22 boundary years; every second of the day x fraction-digit counts x digit patterns; every whole-minute offset -14:59..+14:59 x seconds variants and the first rejected hours; every zone identifier of the zone database; date-time products; duration component products; every single-character corruption of valid literals) against a reference literal grammar and printer",
           "Each literal is read through four paths (date()/time()/date and time()/duration(), the @-literal, the TryFrom/FromStr API, the xsd input conversion). A literal the reference grammar accepts must be accepted on every path, print as the reference's canonical text, expose the written components, and string(v) must read back as an equal value; a literal the grammar rejects must be null on every path. Failures are attributed to the single feature (year, fraction, zone, offset) whose neutralisation makes the literal behave.",
           "Trusts reftime.rs (no chrono, no floating point). Year 0000, offset minutes above 59, more than nine fraction digits and `PT1.S` (pinned as valid by the repository's tests) are left unspecified. Times of day in named zones are only checked for acceptance and printing.",
